@@ -28,6 +28,7 @@ EXPLANATION = (
     "instrument over call histories, SYNC under noise.")
 EXPLANATION += (' Added after the audit wave: C20.5 the delays searched by SYNC are 0 .. l-1 and no more (lag l ties with lag 0 on a repeated pattern); C20.3 the memory clamp of set_data measures the converted, tiled array on its last axis and cuts columns, not rows.')
 EXPLANATION += (' Second audit wave: C20.3 set_data and get_data both bring start_addrs into [1, MAX_MEMORY_LEN] before using it (sibling agreement).')
+EXPLANATION += (' Wave 14: C20.4 a running address that is advanced block by block inside a loop is set back inside the enclosing channel loop (get_data, set_data and the helpers they call): every channel is transferred from the same start address.')
 TRUSTED = ["numpy clip/arange/tile/split semantics", "IEEE-488.2 definite-length block header format #<k><n>", "documented PPG3204 limits as listed in the property statement"]
 
 DOCUMENTED = {"CHANNELS": 4, "PATT_LEN_MIN": 2, "PATT_LEN_MAX": 2 ** 21, "AMPLITUDE_MIN": 0.3, "AMPLITUDE_MAX": 2, "OFFSET_MIN": -2, "OFFSET_MAX": 3,
